@@ -71,10 +71,22 @@ def sites(ctx, case):
         for nm, val in BAD_VAR.items():
             kw = dict(kw0); kw[vn] = val
             yield (f"variance-float-{nm}", {"arg": vn}, ds0, kw, True)
-            arr = np.full(ds0.st.shape, float(kw0[vn]))
-            arr[int(ix[0]), 0] = val
-            kw = dict(kw0); kw[vn] = arr
-            yield (f"variance-array-{nm}", {"arg": vn, "cell": [int(ix[0]), 0]}, ds0, kw, True)
+            cells = [(int(ix[0]), 0), (int(ix[-1]), nt - 1)] + ([(int(outside[0]), 0), (int(outside[-1]), nt - 1)] if outside else [])
+            for ci, (i, t) in enumerate(cells):
+                where = "in-section" if ci < 2 else "outside"
+                arr = np.full(ds0.st.shape, float(kw0[vn]))
+                arr[i, t] = val
+                for form in ("array", "dataarray", "callable"):
+                    if ctx.quick and form != ("array", "dataarray", "callable")[(ci + len(nm)) % 3]:
+                        continue
+                    kw = dict(kw0)
+                    if form == "array":
+                        kw[vn] = arr
+                    elif form == "dataarray":
+                        kw[vn] = xr.DataArray(arr, dims=("x", "time"), coords={"x": ds0.x, "time": ds0.time})
+                    else:
+                        kw[vn] = (lambda stv, a=arr: xr.DataArray(a, dims=("x", "time"), coords={"x": ds0.x, "time": ds0.time}))
+                    yield (f"variance-{form}-{nm}-{where}", {"arg": vn, "cell": [i, t]}, ds0, kw, True)
     nx = ds0.x.size
     kw = dict(kw0); kw["fix_alpha"] = (np.zeros(nx - 1), np.zeros(nx - 1))
     yield ("fix_alpha-too-short", {}, ds0, kw, True)
@@ -82,9 +94,23 @@ def sites(ctx, case):
     for ch in chans:
         dsT[ch] = dsT[ch].transpose("time", "x")
     yield ("arrays-stored-time-x", {}, dsT, kw0, True)
-    for opt, val in (("method", "foo"), ("solver", "foo")):
-        kw = dict(kw0); kw[opt] = val
-        yield (f"unknown-{opt}", {}, ds0, kw, True)
+    fixes = [("free", {})]
+    g = (f.gamma, 0.0)
+    if f.double:
+        ix0 = int(np.min(ix))
+        A = f.truth["A"] - f.truth["A"][ix0]
+        fa = (A.copy(), np.zeros(A.size))
+        fixes += [("fix_gamma", {"fix_gamma": g}), ("fix_alpha", {"fix_alpha": fa}), ("fix_alpha+fix_gamma", {"fix_alpha": fa, "fix_gamma": g})]
+    else:
+        fixes += [("fix_gamma", {"fix_gamma": g}), ("fix_dalpha", {"fix_dalpha": (f.truth["dalpha"], 0.0)}), ("fix_alpha", {"fix_alpha": (f.truth["dalpha"] * f.x, np.zeros(f.x.size))})]
+    for fname, fkw in fixes:
+        for opt, vals in (("method", ("foo", "WLS", None)), ("solver", ("foo", "Sparse", None, "external"))):
+            for val in (vals[:1] if ctx.quick and fname == "free" else vals[:2] if ctx.quick else vals):
+                kw = dict(kw0); kw.update(fkw); kw[opt] = val
+                yield (f"unknown-{opt}", {"value": repr(val), "with": fname}, ds0, kw, True)
+        if fname != "free":
+            kw = dict(kw0); kw.update(fkw)
+            yield ("unchanged", {"with": fname}, ds0, kw, False)
     yield ("unchanged", {}, ds0, kw0, False)
 
 
@@ -109,8 +135,8 @@ def run_case(ctx, p):
 
 def run(ctx):
     ctx.extra["rule"] = ("valid seeded inputs (1 single + 1 double ended in quick, 10 + 10 in thorough) x exactly one corruption at every site: each intensity channel x each reference "
-                         "location x representative times x {0, negative, NaN, inf}; each bath series x {NaN, inf, -inf}; each variance argument as float and as array cell x {NaN, inf, "
-                         "negative}; fix_alpha too short; arrays stored (time, x); unknown method / solver; plus corruptions outside the sections and the unchanged input, for which "
+                         "location x representative times x {0, negative, NaN, inf}; each bath series x {NaN, inf, -inf}; each variance argument as float and as one cell (inside and outside the sections, first/last time) of an array / DataArray / callable-returned DataArray x {NaN, inf, "
+                         "negative}; fix_alpha too short; arrays stored (time, x); unknown / mis-cased / None method and solver crossed with free and every fix_* combination; plus corruptions outside the sections and the unchanged input, for which "
                          "all outputs must be finite wherever the intensities are finite and positive")
     ctx.trusted += ["translator vlib/translators/checks.py (reachability analysis of assert/raise/return)", "harness vlib/props/c19.py"]
     ctx.assumptions += ["any raised exception counts as a refusal", "method='wls'"]
